@@ -2,5 +2,5 @@
    prod, sumbool ... -> OCaml natives); nat, positive, N, Z stay Coq inductives.
    No Extract Constant / Extract Inductive of our own. *)
 Require Import ExtrOcamlBasic.
-From OM Require Import Maths.RunC14.
-Extraction "model.ml" run_c14.
+From OM Require Import Maths.RunC14 Maths.RunC13.
+Extraction "model.ml" run_c14 run_c13.
